@@ -286,6 +286,10 @@ structure FixCase where
   hasWalrus : Bool := false
   /-- the rewritten `"…" % x` template ends in a newline with text between the last specifier and it -/
   pctTail : Bool := false
+  /-- the rewritten `"…" % x` template has a specifier with precision or width `0` (`%.0s`) -/
+  pctZero : Bool := false
+  /-- the rewritten node is a literal piece of an f-string (its parent is a `JoinedStr`) -/
+  inJoinedStr : Bool := false
   deriving Repr
 
 /-- **Class `sharedLine`**: whole lines are replaced, so everything else on them is lost. -/
@@ -310,6 +314,14 @@ def oldRemovalGuard (s : AssignStmt) (_u : String) : Bool :=
 new violation): `use_fstrings` on a template ending in a newline dropped the text between the last specifier
 and that newline (`"%s and %s!\n"` → `f"{a} and {c}\n"`). -/
 def oldD16_fstringTail (c : FixCase) : Bool := c.pctTail && (match c.adds with | some (_ :: _) => true | _ => false)
+
+/-- **Class `fstringZeroPrecision`**: `maybe_replace_with_fstring` tests the parts of a specifier for
+truthiness, so a precision (or width) of `0` counts as absent: `"%.0s" % x` (always empty) becomes `f"{x}"`. -/
+def D16_fstringZeroPrecision (c : FixCase) : Bool := c.pctZero && (match c.adds with | some (_ :: _) => true | _ => false)
+
+/-- **Class `missingFInFstring`**: `missing_f` fires on a literal piece of an f-string (`f"{x} {{y}}"`: the piece
+`" {y}"`), and the f-string nested into the f-string is printed as `f'{x}f' {y}''`. -/
+def D16_missingFInFstring (c : FixCase) : Bool := c.inJoinedStr && (match c.adds with | some (_ :: _) => true | _ => false)
 
 /-- **Class `decoratedStmt`**: a decorated `def`/`class` is regenerated *with* its decorators, but only the
 lines from the `def` keyword on are replaced: the old decorator lines stay above the new ones. -/
@@ -365,6 +377,35 @@ mutual
     | .cons (.val _) rest => occursItems target rest
     | .cons (.tree t) rest => occursTree target t || occursItems target rest
 end
+
+def rootKind : Tree → String
+  | .mk k _ _ => k
+
+/-- `expr` / `stmt` / `other`, given the class names of `ast.expr` and `ast.stmt` subclasses. -/
+def catOf (exprs stmts : List String) (k : String) : String :=
+  if exprs.contains k then "expr" else if stmts.contains k then "stmt" else "other"
+
+/-- The category of every entry of a list field (a statement list is all `stmt`). -/
+def itemCats (cat : String → String) : ItemList → List String
+  | .nil => []
+  | .cons .none rest => "None" :: itemCats cat rest
+  | .cons (.val _) rest => "val" :: itemCats cat rest
+  | .cons (.tree t) rest => cat (rootKind t) :: itemCats cat rest
+
+/-- Every entry of the list that *is* the target has the category of the replacement: an expression is
+replaced by an expression, a statement by a statement. -/
+def rootsKindOk (cat : String → String) (target : Nat) (r : Tree) : ItemList → Bool
+  | .nil => true
+  | .cons (.tree t) rest => (t.id != target || cat (rootKind t) == cat (rootKind r)) && rootsKindOk cat target r rest
+  | .cons _ rest => rootsKindOk cat target r rest
+
+/-- What the route table has to say about a `replace_node` route of the modelled producers
+(name_check_visitor.py, signature.py): the rewritten node is known to be an expression and the replacement is
+not known to be anything else, or both are statements. -/
+def routeKindOk (r : Route) : Bool :=
+  r.call != "replace_node" || !(r.file == "name_check_visitor.py" || r.file == "signature.py") ||
+  (r.targetKind.startsWith "expr:" && (r.replKind == "unknown" || r.replKind.startsWith "expr:")) ||
+  (r.targetKind.startsWith "stmt:" && r.replKind.startsWith "stmt:")
 
 /-- Which entries of a list field are `None` placeholders (`Dict.keys` for `**m`, `kw_defaults`). -/
 def noneMask : ItemList → List Bool
